@@ -403,7 +403,8 @@ theorem fuelOK_panocParams {pr : Panoc.Params α} {nf K : Nat} (h : FuelOK pr nf
 
 /-- **PANOC satisfies `InnerContract`** for the ApproxKKT criterion (the default; part of the
     property statement), with lazy *and* eager gradient evaluation, for every direction provider
-    meeting its size contract, every monotone stop schedule, clock, ALM stop oracle, every `L0`, and parameters with
+    meeting its size contract on the states PANOC reaches (`DirSized`; proved for the four shipped
+    providers in `Props/Directions.lean`), every monotone stop schedule, clock, ALM stop oracle, every `L0`, and parameters with
     `0 ≤ min_linesearch_coefficient`, `0 < Lγ_factor`, `0 < L_min`, `0 < L_max`
     (`Props/C05.ParamsOK`, needed for `γ > 0`) and `FuelOK pr nf K` (`Proofs/PanocFuel`: the model's
     loops provably terminate within their fuel).
@@ -415,7 +416,7 @@ theorem fuelOK_panocParams {pr : Panoc.Params α} {nf K : Nat} (h : FuelOK pr nf
     model's fuel does not run out are all proved from the loop model. -/
 theorem panoc_satisfies_inner_contract (pb : ProblemCF α) (n m : Nat)
     (Pf : Vec α → Vec α → Panoc.Problem α) (hO : OracleContract pb n m Pf)
-    (dir : Direction Dd α) (hD : DirSized n dir) (d0 : Dd) (pr : Panoc.Params α) (hp : ParamsOK pr)
+    (dir : Direction Dd α) (d0 : Dd) (hD : DirSized n dir d0) (pr : Panoc.Params α) (hp : ParamsOK pr)
     (nf K : Nat) (hF : FuelOK pr nf K)
     (hcrit : pr.stopCrit = .ApproxKKT)
     (stop : InnerCall α → Nat → Bool) (hmono : ∀ c, StopMono (stop c))
@@ -425,7 +426,7 @@ theorem panoc_satisfies_inner_contract (pb : ProblemCF α) (n m : Nat)
     run_fuel_suffices (Pf c.y c.sigma) dir d0 (panocParams pr c) (stop c) (hmono c) nf K
       (fuelOK_panocParams hF c) (oot c) c.x c.y c.sigma c.errBuf gV gS iS
   have hsize : ∀ c, WFCall n m c → OutSized n m (panocRun Pf dir d0 pr stop oot gV gS iS c) := fun c hwf =>
-    run_sized (hO.sized c.y c.sigma hwf.y hwf.sigma) dir hD d0 (panocParams pr c) (stop c) (oot c)
+    run_sized (hO.sized c.y c.sigma hwf.y hwf.sigma) dir d0 hD (panocParams pr c) (stop c) (oot c)
       c.x c.y c.sigma c.errBuf gV gS iS hwf.x hwf.y hwf.sigma hwf.errBuf (hfuel c)
   -- what a converged run looks like
   have key : ∀ c, WFCall n m c → (panocRun Pf dir d0 pr stop oot gV gS iS c).stats.status = .Converged →
@@ -452,7 +453,7 @@ theorem panoc_satisfies_inner_contract (pb : ProblemCF α) (n m : Nat)
     have hcrit' : pr'.stopCrit = .ApproxKKT := by subst hpr'; exact hcrit
     have hmode : YhatMode (Pf c.y c.sigma) pr' := Or.inr (hO.law c.y c.sigma hwf.y hwf.sigma)
     have htol' : pr'.tolerance = c.opts.tolerance := by subst hpr'; rfl
-    rcases run_exit_inv (Pf c.y c.sigma) hPs dir hD d0 pr' hp' (stop c) (oot c) c.x c.y c.sigma c.errBuf
+    rcases run_exit_inv (Pf c.y c.sigma) hPs dir d0 hD pr' hp' (stop c) (oot c) c.x c.y c.sigma c.errBuf
       gV gS iS hwf.x hf with hnf | ⟨s', hinv, hrun⟩
     · rw [hnf] at hc; cases hc
     · set P := Pf c.y c.sigma with hP
@@ -709,7 +710,7 @@ theorem panocEx_contract :
       (panocInner (cfProblem pbEx psiEx) dirNoop () prEx (fun _ _ => false) (fun _ => false)
         (fun _ => false) (fun _ => false) [] 0 0) :=
   panoc_satisfies_inner_contract pbEx 1 1 (cfProblem pbEx psiEx) pbEx_contract
-    dirNoop (dirSized_noop 1) () prEx
+    dirNoop () (dirSized_noop 1 ()) prEx
     ⟨by norm_num [prEx, prq], by norm_num [prEx, prq], by norm_num [prEx, prq], by norm_num [prEx, prq]⟩
     1 9 (by refine ⟨?_, ?_, ?_, ?_, ?_, by norm_num, ?_, ?_⟩ <;> norm_num [prEx, prq, Lstart])
     rfl (fun _ _ => false) (fun _ s t _ h => by cases h) (fun _ => false) (fun _ => false) (fun _ => false) [] 0 0
@@ -738,7 +739,7 @@ example :
       (fun _ _ => false) (fun _ => false) (fun _ => false) (fun _ => false) [] 0 0
       ⟨[1/2], [2], [1], [7], ⟨true, 1/10, 0, false⟩⟩).status = .Converged :=
   ⟨panoc_satisfies_inner_contract pbEx 1 1 (cfProblem pbEx psiEx) pbEx_contract
-    dirNoop (dirSized_noop 1) () { prEx with eagerGradientEval := true }
+    dirNoop () (dirSized_noop 1 ()) { prEx with eagerGradientEval := true }
     ⟨by norm_num [prEx, prq], by norm_num [prEx, prq], by norm_num [prEx, prq], by norm_num [prEx, prq]⟩
     1 9 (by refine ⟨?_, ?_, ?_, ?_, ?_, by norm_num, ?_, ?_⟩ <;> norm_num [prEx, prq, Lstart])
     rfl (fun _ _ => false) (fun _ s t _ h => by cases h) (fun _ => false) (fun _ => false) (fun _ => false) [] 0 0,
